@@ -75,3 +75,10 @@ Definition eval_write_reply (c : bool * list N * list wevent) : string :=
         show_bytes out ++ ":" ++ show_wresult r
    else let '(out, r) := server_write_reply data evs in show_bytes out ++ ":" ++ show_rresult r)
   ++ "|" ++ show_bytes data.
+
+(* the client's request write with the request timeout: (frame, events) -> emitted : how the call ends | the frame *)
+Definition show_cresult (r : cresult) : string := match r with CDone => "done" | CParked => "parked" | CTimedOut => "Io(TimedOut)" end.
+Definition eval_client_write (c : list N * list cevent) : string :=
+  let '(data, evs) := c in
+  let '(out, r) := client_request_write data evs in
+  show_bytes out ++ ":" ++ show_cresult r ++ "|" ++ show_bytes data.
